@@ -10,10 +10,12 @@
      [open_dir] = openMMapFiles incl. repairLastChunkFile, [recover] = the head's
      loadMmappedChunks / DeleteCorrupted / loadMmappedChunks sequence, [chunk_at] = the file part
      of ChunkDiskMapper.Chunk.
-   Layer 2 (state machine): evtlPos, the job queue, chunkRefMap, the worker, chunkBuffer, the
-     bufio writer and the files, with atomic steps Write (WriteChunk with the queue enabled), Cut
-     (CutNewFile), Trunc (Truncate), Pop / Proc / Done (the three phases of the queue worker:
-     jobs.pop, writeChunk+callback, delete from chunkRefMap) and Read (Chunk).
+   Layer 2 (state machine): evtlPos (also alone: [alloc]), the job queue, chunkRefMap, the worker,
+     chunkBuffer, the bufio writer and the files, with atomic steps Write (WriteChunk with the queue
+     enabled), Cut (CutNewFile), Trunc (Truncate), Pop (jobs.pop), Micro (one atomic action of
+     writeChunk: flushBuffer is two of them, chkWriter.Flush() and chunkBuffer.clear()), Site (run
+     on to a flushBuffer pause point), Proc (writeChunk + callback run to the end), Done (delete
+     from chunkRefMap) and Read (Chunk).
    The CRC function is a Section variable (oracle); the correspondence file instantiates it with
    a bitwise CRC-32C. *)
 From Coq Require Import List NArith ZArith Bool.
